@@ -54,7 +54,10 @@ class LinearInterp(BaseGenerator):
         b = self.b[bin_index]
         x1 = self.x[1:][bin_index]
         d = x - self.int_step[bin_index]
-        y = np.sqrt(b**2 + k * (k * x1**2 + 2 * b * x1 + 2 * d)) - b
+        # the radicand is (k*t+b)**2 >= 0; rounding can make it slightly negative
+        # where the density vanishes at a bin edge
+        rad = np.maximum(b**2 + k * (k * x1**2 + 2 * b * x1 + 2 * d), 0.0)
+        y = np.sqrt(rad) - b
         y2 = d + b * x1
         return np.where(k == 0, y2, y) / np.where(k == 0, b, k)
 
